@@ -966,6 +966,82 @@ func init() {
 		w.stats.Inc("probe.rows-run")
 	}})
 
+	// ---- C18: a transaction set that references every leaf of a tree (nothing of that tree is in the multiproof)
+	registerRows("C18", probeRow{"V1-multiproof-fully-covered-tree", func(w *World, n *Node) {
+		t := w.tape
+		h := t.Range(0, 4)
+		extra := t.Choose(8) // leaves in the smaller trees that follow
+		total := uint64(1)<<h + uint64(extra)
+		els := make([]types.SiacoinElement, total)
+		f := &ref.Forest{}
+		for i := range els {
+			els[i] = types.SiacoinElement{ID: types.SiacoinOutputID{byte(i), byte(h), 0x18}, StateElement: types.StateElement{LeafIndex: uint64(i)},
+				SiacoinOutput: types.SiacoinOutput{Value: types.Siacoins(uint32(i + 1)), Address: w.advAddr()}, MaturityHeight: uint64(i % 3)}
+			f.Set(uint64(i), ref.LeafHash(ref.SiacoinElemHash(els[i].ID, els[i].SiacoinOutput, els[i].MaturityHeight), uint64(i), false))
+		}
+		var txns []types.V2Transaction
+		add := func(i int) {
+			el := els[i].Copy()
+			el.StateElement.MerkleProof = f.Path(uint64(i))
+			if len(txns) == 0 || t.Chance(1, 2) {
+				txns = append(txns, types.V2Transaction{})
+			}
+			last := &txns[len(txns)-1]
+			last.SiacoinInputs = append(last.SiacoinInputs, types.V2SiacoinInput{Parent: el, SatisfiedPolicy: types.SatisfiedPolicy{Policy: types.AnyoneCanSpend()}})
+		}
+		for i := 0; i < 1<<h; i++ { // the whole first tree
+			add(i)
+		}
+		for i := 1 << h; i < int(total); i++ {
+			if t.Chance(1, 2) {
+				add(i)
+			}
+		}
+		var want [][]byte
+		for i := range txns {
+			want = append(want, fullTxnBytes(txns[i]))
+		}
+		var buf bytes.Buffer
+		e := types.NewEncoder(&buf)
+		types.V2TransactionsMultiproof(txns).EncodeTo(e)
+		e.Flush()
+		var back types.V2TransactionsMultiproof
+		d := types.NewBufDecoder(buf.Bytes())
+		if p := guard(func() { back.DecodeFrom(d) }); p != "" {
+			w.violate("C10", "decode-multiproof-panic", p)
+			return
+		}
+		what := fmt.Sprintf("%d transactions referencing all %d leaves of the first tree of a %d-leaf accumulator (and %d of the others)", len(txns), 1<<h, total, len(want))
+		if d.Err() != nil || len(back) != len(txns) {
+			w.violate("C18", "multiproof-roundtrip-decode", fmt.Sprintf("%s: the multiproof form does not decode again: %v", what, d.Err()))
+			return
+		}
+		for i := range txns {
+			if !bytes.Equal(fullTxnBytes(back[i]), want[i]) {
+				w.violate("C18", "multiproof-roundtrip", fmt.Sprintf("%s: transaction %d comes back with other proofs", what, i))
+				return
+			}
+		}
+		// a storage proof for a very large file (more than 2^32 leaves) inside a transaction
+		{
+			sp := &types.V2StorageProof{ProofIndex: types.ChainIndexElement{ID: types.BlockID{5}, ChainIndex: types.ChainIndex{Height: 7, ID: types.BlockID{5}}, StateElement: types.StateElement{LeafIndex: types.UnassignedLeafIndex}}}
+			for j := t.Range(30, 45); j > 0; j-- {
+				sp.Proof = append(sp.Proof, types.Hash256{byte(j), 0x77})
+			}
+			txn := types.V2Transaction{FileContractResolutions: []types.V2FileContractResolution{{Parent: types.V2FileContractElement{ID: types.FileContractID{6}, StateElement: types.StateElement{LeafIndex: types.UnassignedLeafIndex}}, Resolution: sp}}}
+			enc := encAny(txn)
+			var bt types.V2Transaction
+			d := types.NewBufDecoder(enc)
+			bt.DecodeFrom(d)
+			if d.Err() != nil || !bytes.Equal(encAny(bt), enc) {
+				w.violate(w.propAmong("C18", "C11"), "storage-proof-roundtrip", fmt.Sprintf("a v2 transaction carrying a storage proof of %d hashes (a file of more than 2^%d leaves) does not survive decode(encode()): %v", len(sp.Proof), len(sp.Proof)-1, d.Err()))
+				return
+			}
+		}
+		w.stats.Inc("probe.V1-multiproof-fully-covered-tree")
+		w.stats.Inc("probe.rows-run")
+	}})
+
 	// ---- C04: leaf-index bits above the tree, a chain index whose block ID is altered, a contract that never existed
 	registerRows("C04", probeRow{"M1-high-leaf-index-bits", func(w *World, n *Node) {
 		sc := n.fork()
